@@ -41,10 +41,10 @@ func (e *EnvAsg) UnmarshalJSON(b []byte) error {
 }
 
 type RunCase struct {
-	Env    EnvAsg             `json:"env"`
-	Exp    Outcome            `json:"exp"`
-	Dev    DevMap             `json:"dev,omitempty"`
-	Budget *int               `json:"budget,omitempty"`
+	Env    EnvAsg  `json:"env"`
+	Exp    Outcome `json:"exp"`
+	Dev    DevMap  `json:"dev,omitempty"`
+	Budget *int    `json:"budget,omitempty"`
 }
 
 type Case struct {
@@ -58,37 +58,38 @@ type Case struct {
 	// C18 / C17 / C02 style: a second source that must agree with the first
 	Src2 string `json:"src2,omitempty"`
 	Law  string `json:"law,omitempty"`
+	Alt  bool   `json:"alt,omitempty"` // C17: compile against the alternative environment (Add takes float64)
 }
 
 // Failure is one real execution that contradicts the specification.
 type Failure struct {
-	Prop     string         `json:"prop"`
-	Why      string         `json:"why"`
-	Src      string         `json:"src"`
-	Src2     string         `json:"src2,omitempty"`
-	Law      string         `json:"law,omitempty"`
-	Mode     string         `json:"mode"`
-	Mode2    string         `json:"mode2,omitempty"`
-	Env      EnvAsg         `json:"env,omitempty"`
-	Budget   *int           `json:"budget,omitempty"`
-	Exp      *Outcome       `json:"exp,omitempty"`
-	Got      *Got           `json:"got,omitempty"`
-	Got2     *Got           `json:"got2,omitempty"`
-	DevMatch []string       `json:"devmatch,omitempty"`
-	Tags     []string       `json:"tags,omitempty"`
+	Prop     string   `json:"prop"`
+	Why      string   `json:"why"`
+	Src      string   `json:"src"`
+	Src2     string   `json:"src2,omitempty"`
+	Law      string   `json:"law,omitempty"`
+	Mode     string   `json:"mode"`
+	Mode2    string   `json:"mode2,omitempty"`
+	Env      EnvAsg   `json:"env,omitempty"`
+	Budget   *int     `json:"budget,omitempty"`
+	Exp      *Outcome `json:"exp,omitempty"`
+	Got      *Got     `json:"got,omitempty"`
+	Got2     *Got     `json:"got2,omitempty"`
+	DevMatch []string `json:"devmatch,omitempty"`
+	Tags     []string `json:"tags,omitempty"`
 }
 
 type Summary struct {
-	Prop        string            `json:"prop"`
-	Cases       int               `json:"cases"`
-	Executions  int               `json:"executions"`
-	Programs    int               `json:"programs"`
-	Failures    int               `json:"failures"`
-	Skipped     map[string]int    `json:"skipped"`
-	Stats       map[string]int    `json:"stats"`
-	Samples     []json.RawMessage `json:"samples"`
-	Nontrivial  int               `json:"nontrivial"`
-	Infra       []string          `json:"infra,omitempty"`
+	Prop       string            `json:"prop"`
+	Cases      int               `json:"cases"`
+	Executions int               `json:"executions"`
+	Programs   int               `json:"programs"`
+	Failures   int               `json:"failures"`
+	Skipped    map[string]int    `json:"skipped"`
+	Stats      map[string]int    `json:"stats"`
+	Samples    []json.RawMessage `json:"samples"`
+	Nontrivial int               `json:"nontrivial"`
+	Infra      []string          `json:"infra,omitempty"`
 }
 
 func callsEq(a, b []CallRec) bool {
@@ -147,6 +148,7 @@ type replayer struct {
 	maxSamp  int
 	seenProg map[string]bool
 	extra    []expr.Option // options added to every compile (C17: the operator mapping)
+	reused   map[string]*vm.VM
 }
 
 func (r *replayer) fail(f Failure) {
@@ -175,6 +177,9 @@ func (r *replayer) evalCase(c Case) {
 	lg := &Log{}
 	nontrivial := false
 	for _, m := range r.modes {
+		if c.Alt != (m.Env == "altmap") {
+			continue
+		}
 		prog, cg := CompileMode(c.Src, m, r.extra...)
 		if cg != nil {
 			if cg.Panic != "" || cg.Hang {
@@ -363,6 +368,12 @@ func (r *replayer) dispatch(line []byte) error {
 			return err
 		}
 		r.histCase(c)
+	case "C12":
+		var c LexCase
+		if err := json.Unmarshal(line, &c); err != nil {
+			return err
+		}
+		r.lexCase(c)
 	case "C11":
 		var c FrontCase
 		if err := json.Unmarshal(line, &c); err != nil {
